@@ -218,6 +218,10 @@ class Esc:
         def elem_type_of(e):
             if isinstance(e, ast.Name) and e.id in elem:
                 return elem[e.id]
+            if isinstance(e, ast.Subscript) and isinstance(e.slice, ast.Slice):
+                return elem_type_of(e.value)        # a slice of a list has the same elements
+            if isinstance(e, ast.Call) and isinstance(e.func, ast.Name) and e.func.id in ('list', 'tuple', 'reversed', 'sorted') and len(e.args) == 1:
+                return elem_type_of(e.args[0])
             if isinstance(e, ast.Attribute):
                 bt = type_of(e.value)
                 if bt and bt in P.classes:
